@@ -16,6 +16,7 @@ K_ARP = {"unit": "arp", "inject": "elvis-core/src/protocols/arp/arp_parsing.rs",
 
 K_CHECKSUM = {"unit": "checksum", "inject": "elvis-core/src/protocols/utility.rs", "crate": "elvis-core"}
 
+K_SEGORD = {"unit": "segord", "inject": "elvis-core/src/protocols/tcp/tcb/segment.rs", "crate": "elvis-core"}
 K_TCB = {"unit": "tcb", "inject": "elvis-core/src/protocols/tcp/tcb.rs", "crate": "elvis-core"}
 
 TCB_NOTE = ("Trusted: Verus/Z3; Message imported by contract (verified in unit message), comparison primitives imported by contract (verified in unit modcmp); "
@@ -122,8 +123,8 @@ PROPS = {
         "explanation": "subnet arithmetic contracts; routing-table clause see ip_table obligations",
     },
     "C12": {
-        "units": ["modcmp"],
-        "kani": [K_MODCMP],
+        "units": ["modcmp", "tcb", "message"],
+        "kani": [K_MODCMP, K_SEGORD],
         "level": "proof",
         "technique": "Verus contracts on the extracted modular_cmp.rs functions + Kani full-domain harnesses on the real crate",
         "level_text": "Every comparison primitive (mod_lt/leq/gt/geq/mod_bounded, ModCmp::offset) carries an exact postcondition against the mathematical circular order, discharged by Verus for all 2^32 x 2^32 (x 2^32) arguments and re-proved bit-precisely by loop-free Kani harnesses on the compiled crate; translation invariance is a lemma over those contracts.",
